@@ -12,7 +12,10 @@ LEVEL_TEXT = ("Theorems in Coq, for every event sequence / configuration / execu
               "the executor's answer at its call's own position in that request; nothing is left waiting after Close or with "
               "linger 0. the same holds with the retry loop of doRequestWithRetries explicit, for every attempt script (any number of "
               "attempts, any chunking of a read stream, partial delivery before a retriable failure): the answer is that of the "
-              "last attempt only. (2) write stream: every successful completion pairs the "
+              "last attempt only. batcher shutdown at goroutine granularity (Add = closed-check + channel send, Run's receive / timer / close branch "
+              "with its drain loop, Close; any queue capacity): under every interleaving nobody completes twice, and everybody "
+              "completes exactly once when no Add is between its check and its send at the moment of Close (the remaining overlap "
+              "loses the call: refuted by witness and observed on the real batcher). (2) write stream: every successful completion pairs the "
               "i-th successfully sent request with the i-th response received, for one i -- also when callers abandon "
               "requests that are on the wire (per-request timeout or cancellation: the future keeps its place in the FIFO "
               "and swallows its own late response); every Send returns exactly once; no panic (after the fix; refuted for "
@@ -32,8 +35,8 @@ LEVEL_TEXT = ("Theorems in Coq, for every event sequence / configuration / execu
               "client (managers, batcher factory, fan-out) over a fake executor and judges only order-insensitive outcomes.")
 LEVEL_NOTE = ("Trusted: Coq kernel, extraction (ExtrOcamlBasic), the Go harness (handshake wrappers around the real batches, "
               "in-memory gRPC stream fakes) and its canonicalisation. Modelled, not verified: the Go scheduler and timers "
-              "(which select case fires is an input event; Add and Run's handling of the call are one atomic event, i.e. "
-              "Add racing with Close is outside the model), gRPC (assumed: a failed or closed stream keeps failing sends), "
+              "(which select case fires is an input event; in the event model Add and Run's handling of the call are one atomic event; "
+              "the shutdown model splits them), gRPC (assumed: a failed or closed stream keeps failing sends), "
               "the backoff timing of doRequestWithRetries (the attempts and their outcomes are inputs; a request timeout is the end of the attempt list), protobuf. "
               "Secondary-index range scans are merged by primary key while each shard streams in index order: the "
               "permutation theorem covers them, the sortedness theorem's hypothesis does not hold for them (recorded, "
@@ -51,6 +54,9 @@ RULE = ("batch: event lists (Call/Tick/Close) x configurations (write/read, ling
         "sends (ok/failed), responses, receive errors, per-request context cancellations, closure; merge: 0..8 per-shard streams over a '/'-rich key alphabet, "
         "errors anywhere, duplicates, unsorted streams, non-trivial = 2+ streams; mget: 1..6 shards, all comparison types, "
         "errors/not-found/OK mixes, secondary-index gets (answers carry primary and secondary key), answers whose primary or secondary key equals the search key, partial arrivals, every arrival order of one answer set for <= 4 shards, random callback order, observations per arrival, non-trivial = 2+ shards; "
+        "shutdown: real batcher with a parked executor, queue filled to capacity, late Adds parked in the send (seen in the "
+        "goroutine dump), Close before / after the fill / after the parking, Adds after Close; the same through the real client in a "
+        "child process; an unforced stress of 8 Adds racing Close (lost calls counted as an observation, double completions are a verdict); "
         "list / scan (through clientImpl.List / RangeScan): 1..5 shards whose streams end with EOF, an opaque error or any "
         "gRPC status (Canceled, Unknown, DeadlineExceeded, Internal, Unavailable, oxia codes 100..108) after 0..k items, keys from "
         "the comparer-stressing alphabet; wsend: write batch retry loop over the real stream wrapper, attempts = connection "
